@@ -42,7 +42,12 @@ pub fn gen_path(rng: &mut Rng, w: i32, h: i32, far: bool) -> Path {
     let mut last: Option<(f32, f32)> = None;
     for _ in 0..nsub {
         if !(first && rng.chance(0.1)) {
-            let (mx, my) = (c(rng, wf), c(rng, hf));
+            // (now and then the new subpath starts exactly where the previous one stopped: the previous one is
+            // closed by the fill all the same, and the two stay two contours)
+            let (mx, my) = match last {
+                Some(l) if rng.chance(0.12) => l,
+                _ => (c(rng, wf), c(rng, hf)),
+            };
             pb.move_to(mx, my);
             last = Some((mx, my));
         }
